@@ -9,6 +9,7 @@ import (
 	"strconv"
 	"strings"
 	"sync"
+	"sync/atomic"
 	"time"
 
 	"github.com/oxia-db/oxia/common/concurrent"
@@ -45,6 +46,11 @@ func (C08) Generate(rng *rand.Rand, tier string) []core.Case {
 	for i := 0; i < conc; i++ {
 		cases = append(cases, core.Case{Name: fmt.Sprintf("pipeline-%d", i), Ops: []string{
 			fmt.Sprintf("lc.concurrent writers=%d each=%d sync=%d", 2+rng.Intn(15), 20+rng.Intn(150), rng.Intn(2))}})
+	}
+	// a segment rollover scheduled between the sync goroutine's choice of the segment and its msync
+	for i := 0; i < 3; i++ {
+		cases = append(cases, core.Case{Name: fmt.Sprintf("pipeline-syncrace-%d", i), Ops: []string{
+			fmt.Sprintf("lc.concurrent writers=1 each=%d sync=1 seg=%d extra=%d", 1+rng.Intn(3), 512+64*rng.Intn(4), 8+rng.Intn(8))}})
 	}
 	return cases
 }
@@ -135,9 +141,45 @@ func (stubRPC) Truncate(string, *proto.TruncateRequest) (*proto.TruncateResponse
 	return nil, fmt.Errorf("no followers")
 }
 
+// raceMu: a case that schedules a segment rollover into the sync goroutine's window uses the process-wide
+// segment hook of the WAL package and runs alone
+var raceMu sync.RWMutex
+
+type c08WriteCb struct {
+	key string
+	out chan<- c08Res
+}
+
+type c08Res struct {
+	key     string
+	version int64
+	err     error
+}
+
+func (c c08WriteCb) OnComplete(r *proto.WriteResponse) {
+	if r == nil || len(r.Puts) != 1 || r.Puts[0].Version == nil {
+		c.out <- c08Res{key: c.key, err: fmt.Errorf("bad response")}
+		return
+	}
+	c.out <- c08Res{key: c.key, version: r.Puts[0].Version.VersionId}
+}
+func (c c08WriteCb) OnCompleteError(err error) { c.out <- c08Res{key: c.key, err: err} }
+
 func c08Concurrent(kvs map[string]string) string {
 	writers, _ := strconv.Atoi(kvs["writers"])
 	each, _ := strconv.Atoi(kvs["each"])
+	extra, _ := strconv.Atoi(kvs["extra"])
+	seg, _ := strconv.Atoi(kvs["seg"])
+	if seg == 0 {
+		seg = 128 * 1024
+	}
+	if extra > 0 {
+		raceMu.Lock()
+		defer raceMu.Unlock()
+	} else {
+		raceMu.RLock()
+		defer raceMu.RUnlock()
+	}
 	dir, err := os.MkdirTemp("", "oxv-c08-")
 	if err != nil {
 		return "err:" + err.Error()
@@ -149,7 +191,7 @@ func c08Concurrent(kvs map[string]string) string {
 		return "err:" + err.Error()
 	}
 	defer kvFactory.Close()
-	walFactory := wal.NewWalFactory(&wal.FactoryOptions{BaseWalDir: dir + "/wal", SyncData: kvs["sync"] == "1", SegmentSize: 128 * 1024})
+	walFactory := wal.NewWalFactory(&wal.FactoryOptions{BaseWalDir: dir + "/wal", SyncData: kvs["sync"] == "1", SegmentSize: int32(seg)})
 	defer walFactory.Close()
 	lc, err := server.NewLeaderController(server.Config{}, constant.DefaultNamespace, shard, stubRPC{}, walFactory, kvFactory)
 	if err != nil {
@@ -162,12 +204,26 @@ func c08Concurrent(kvs map[string]string) string {
 	if _, err := lc.BecomeLeader(context.Background(), &proto.BecomeLeaderRequest{Shard: shard, Term: 1, ReplicationFactor: 1}); err != nil {
 		return "err:" + err.Error()
 	}
-	type res struct {
-		key     string
-		version int64
-		err     error
+	type res = c08Res
+	results := make(chan res, writers*each+extra)
+	var extraWg sync.WaitGroup
+	if extra > 0 {
+		// the first time the sync goroutine is about to flush a segment, other writers get in: their appends
+		// roll the segment over before the msync happens
+		var once atomic.Bool
+		extraWg.Add(1)
+		wal.SetVerifSegmentHook(func(kind string, _ int64, _ int64, _ uint32) {
+			if kind == "before-flush" && once.CompareAndSwap(false, true) {
+				defer extraWg.Done()
+				for j := 0; j < extra; j++ {
+					key := fmt.Sprintf("x-%d", j)
+					lc.Write(context.Background(), &proto.WriteRequest{Shard: &shard, Puts: []*proto.PutRequest{{Key: key, Value: []byte(key)}}},
+						c08WriteCb{key: key, out: results})
+				}
+			}
+		})
+		defer wal.SetVerifSegmentHook(nil)
 	}
-	results := make(chan res, writers*each)
 	var wg sync.WaitGroup
 	for w := 0; w < writers; w++ {
 		wg.Add(1)
@@ -185,6 +241,14 @@ func c08Concurrent(kvs map[string]string) string {
 		}(w)
 	}
 	wg.Wait()
+	if extra > 0 {
+		extraWg.Wait()
+		// the extra writes complete asynchronously
+		deadline := time.Now().Add(10 * time.Second)
+		for len(results) < writers*each+extra && time.Now().Before(deadline) {
+			time.Sleep(2 * time.Millisecond)
+		}
+	}
 	close(results)
 	ok, failed := 0, 0
 	var versions []int64
@@ -223,7 +287,7 @@ func c08Concurrent(kvs map[string]string) string {
 			return out + " response-of-another-request:" + key
 		}
 	}
-	if st, err := lc.GetStatus(&proto.GetStatusRequest{Shard: shard}); err != nil || st.CommitOffset != int64(writers*each-1) || st.HeadOffset != int64(writers*each-1) {
+	if st, err := lc.GetStatus(&proto.GetStatusRequest{Shard: shard}); err != nil || st.CommitOffset != int64(writers*each+extra-1) || st.HeadOffset != int64(writers*each+extra-1) {
 		return out + fmt.Sprintf(" status=%v err=%v", st, err)
 	}
 	return out
